@@ -89,8 +89,16 @@ def gen_case(rng, thorough):
     n1 = rng.choice([3, 5, 7, 9] if not thorough else [3, 6, 9, 12])
     case = dict(kind=kind, ops=gen_ops(rng, n1, kind), later=gen_ops(rng, rng.choice([2, 3, 5]), kind),
                 live=rng.choice([1, 2]), pack=None, sched=None, probe_seed=rng.randrange(1 << 30))
-    if kind == 'file' and rng.random() < 0.3:
-        case['pack'] = rng.randrange(1, n1)          # pack just after that many history ops
+    if kind == 'file' and rng.random() < 0.45:
+        case['pack'] = rng.randrange(1, n1)          # pack time: just after that many history ops
+        # when the pack RUNS: right then, after the whole history (so transactions newer than the pack
+        # time are copied by the packer), or while historical connections are open and live ones commit
+        case['pack_when'] = rng.choice(['now', 'end', 'end', 'later'])
+        case['pack_days'] = rng.choice([0, 0, 1, 3])  # db.pack(t + days * 86400, days=days): same pack time
+        # make sure the pack frees something and an object has >= 2 revisions after the pack time
+        k = case['pack']
+        case['ops'][k:k] = [['set', 1, rng.randrange(1 << 30)]] if k >= 2 else []
+        case['ops'] += [['set', 2, rng.randrange(1 << 30)], ['set', 2, rng.randrange(1 << 30)]]
     if rng.random() < (0.5 if thorough else 0.25):
         case['sched'] = dict(seed=rng.randrange(1 << 30), stick=rng.choice([0.0, 0.5, 0.8]))
     if rng.random() < 0.4:
@@ -357,13 +365,22 @@ class World:
         except Exception:   # noqa: BLE001
             return None
 
-    def pack_now(self):
+    def pack_point(self):
+        """fix the pack time just after the newest transaction; bounds and undos at or before it are
+        no longer used (a historical point must not be older than the last pack)"""
+        self.packed_upto = self.rec.ltid()
+
+    def pack_run(self):
+        """run the pack for the fixed pack time through DB.pack(t, days)"""
         from ZODB.TimeStamp import TimeStamp
-        tid = self.rec.ltid()
-        t = TimeStamp(p64(tid)).timeTime() + 0.5
-        self.db.pack(t)
-        self.packed_upto = tid
-        self.obs.count('pack')
+        t = TimeStamp(p64(self.packed_upto)).timeTime() + 0.5
+        days = self.case.get('pack_days', 0)
+        if days:
+            self.db.pack(t + days * 86400, days=days)
+        else:
+            self.db.pack(t)
+        self.obs.count('pack:%s:days=%d' % (self.case.get('pack_when', 'now'), days))
+        self.obs.count('pack:txns-after-pack-time', sum(1 for tid, _ in self.rec.txns if tid > self.packed_upto))
 
     def close(self):
         for tm, c in zip(self.tms, self.conns):
@@ -460,7 +477,7 @@ def open_probe(world, obs, kw, val, num, form, nhist, keep):
         obs.bad.append(('C15:bound-differs', 'open(%s): connection bound %r, expected %d'
                         % (ctx, h.before and u64(h.before), bound)))
     oids = sorted(rec.all_oids)
-    real = real_reads(h, oids)
+    real = real_reads(h, oids, minimize=True)      # (a pooled connection of the same bound may be reused)
     check_reads(obs, 'open', 'C15:read-differs', real, expected_reads(rec, bound, oids), ctx)
     model_reads(obs, hk, rec, bound, oids)
     if bound <= ltid:
@@ -520,10 +537,15 @@ def run_case(case, tmp, full=True):
         world = World(case, tmp, obs)
         try:
             rec = world.rec
+            when = case.get('pack_when', 'now')
             for k, op in enumerate(case['ops']):
                 world.apply(op)
                 if case.get('pack') == k + 1:
-                    world.pack_now()
+                    world.pack_point()
+                    if when == 'now':
+                        world.pack_run()
+            if case.get('pack') is not None and world.packed_upto and when == 'end':
+                world.pack_run()
             nhist = [0]
             kept = []
             forms = probe_forms(rec, rng, world.packed_upto, full)
@@ -545,6 +567,8 @@ def run_case(case, tmp, full=True):
             for j, op in enumerate(case['later']):
                 touched_before = len(rec.txns)
                 world.apply(op)
+                if j == 0 and case.get('pack') is not None and world.packed_upto and when == 'later':
+                    world.pack_run()            # the kept historical connections are open meanwhile
                 if len(rec.txns) > touched_before:
                     last_w = rec.txns[-1][1]
                     for h, tm, bound, hk, ctx in kept:
